@@ -3,6 +3,7 @@
   Trusted base of the correspondence check (not part of the model).
 -/
 import Phil
+import Phil.Heap
 open Phil
 
 def tokErrJ : TokErr → J
@@ -54,6 +55,22 @@ def opOfJ (j : J) : Option (Index.Op PVal Str) :=
   | .arr [.str "get"] => some .getPython
   | .arr [.str "get_noop"] => some (.setState 1000000)      -- an operation the implementation refused: no effect
   | _ => none
+
+/-- identity graph of real objects → heap (C17/C18 heap correspondence): one entry per object,
+    `[is scope, name, parent index | null, child indices]` -/
+def heapOfJ (g : List J) : Option Heap.Heap :=
+  g.mapM fun c => match c with
+    | .arr [.bool sc, nm, par, .arr ks] =>
+      (match nm.getStr, par.getOptInt, ks.mapM J.getInt with
+       | some nm, some par, some ks =>
+         some (if sc then Heap.Node.scope { name := nm } (ks.map Int.toNat) (par.map Int.toNat)
+               else Heap.Node.defn { name := nm } [] (par.map Int.toNat))
+       | _, _, _ => none)
+    | _ => none
+
+def graphJ (h : Heap.Heap) : J :=
+  .arr ((Heap.graph h).map fun g =>
+    .arr [.bool g.isScope, J.text g.name, J.optNat g.parent, .arr (g.kids.map fun k => J.num (Int.ofNat k))])
 
 def handle (req : J) : J :=
   match req with
@@ -208,6 +225,23 @@ def handle (req : J) : J :=
               | .error e => e.toJ
               | .ok v => okJ (.arr ((nodePaths 1000 [some []] v).map J.text)))))
      | _, _, _ => .str "bad-request")
+  | .arr [.str "heap_op", .arr g, .str op, .num x, nmj, objsj] =>
+    (match heapOfJ g with
+     | none => .str "bad-request"
+     | some h =>
+       let x := x.toNat
+       let name : Option Str := nmj.getStr
+       let objs : Option (List Nat) := match objsj with
+         | .arr ks => (ks.mapM J.getInt).map (fun l => l.map Int.toNat)
+         | _ => none
+       let r : Option (Heap.Heap × Nat) :=
+         if op == "copy" then Heap.copy h x
+         else if op == "deepcopy" then (Heap.deepcopy h x).map (fun c => (c.heap, c.result))
+         else if op == "ccopy" then Heap.customizedCopy h x name none objs
+         else none
+       match r with
+       | some (h', y) => okJ (.arr [graphJ h', .num (Int.ofNat y)])
+       | none => .arr [.str "unsupported", .str "heap_op"])
   | .arr [.str "isspace_table"] =>
     okJ (.arr (((List.range 0x110000).filter (fun (n : Nat) => (decide (n < 0xD800) || decide (n > 0xDFFF)) && isSpace (Char.ofNat n))).map (fun (n : Nat) => J.num (Int.ofNat n))))
   | _ => .str "bad-op"
